@@ -594,6 +594,20 @@ Theorem c12_source_instr_no_deadlock : forall (pc : pconfig) (ms : list task),
 Proof. exact src_pm_no_deadlock. Qed.
 Print Assumptions c12_source_instr_no_deadlock.
 
+(* no request is lost: when every task has finished, each has one result per lookup, in order, and every requested
+   slot was fetched exactly once — whatever the instruction-level interleaving was *)
+Theorem c12_source_instr_results_complete : forall (pc : pconfig) (ms : list task) (t : task),
+  pall_done pc (pmrun src_program pc ms) = true ->
+  map fst (results (psh (pmrun src_program pc ms)) t) = map snd (nth t (ptasks pc) []).
+Proof. exact src_pm_results_complete. Qed.
+Print Assumptions c12_source_instr_results_complete.
+
+Theorem c12_source_instr_exactly_once_at_quiescence : forall (pc : pconfig) (ms : list task) (k : key),
+  pall_done pc (pmrun src_program pc ms) = true -> In k (concat (tasks (cfg pc))) ->
+  psupplier_calls (pmrun src_program pc ms) k = 1.
+Proof. exact src_pm_exactly_once. Qed.
+Print Assumptions c12_source_instr_exactly_once_at_quiescence.
+
 Example c12_nonvacuous_instr :
   let s1 := pmrun src_program two_fill [0; 0; 0; 0; 0; 1; 1] in
   req (psh s1) = 1 /\ calls (psh s1) = [] /\ lock (psh s1) 0 = Some 0 /\ waiting (snd (ppcs s1 1)) = true /\
